@@ -571,7 +571,6 @@ walker_total!(c07_walker_unknown_8, 8, 0);
 walker_total!(c07_walker_xr_8, 8, 207);
 walker_total!(c07_walker_rr_8, 8, 201);
 walker_total!(c07_walker_psfb_12, 12, 206);
-walker_total!(c07_walker_rtpfb_16, 16, 205);
 walker_total!(c07_walker_sr_28, 28, 200);
 
 // ---------------------------------------------------------------- RtpHeader::parse (over &[u8], a cheap Buf)
